@@ -98,6 +98,11 @@ func (r *Run) sitePolicy(site string, n int) (pol int, param uint64, call int) {
 		perturb := false
 		t := r.Tapes.Get(StreamMap)
 		switch r.MapMode {
+		case 4:
+			if pol, ok := r.ForceMap[site]; ok {
+				ms.pol = pol
+				ms.param = 1
+			}
 		case 1:
 			perturb = true
 		case 2:
@@ -105,7 +110,7 @@ func (r *Run) sitePolicy(site string, n int) (pol int, param uint64, call int) {
 		case 3:
 			perturb = ms.idx == r.mapOnly
 		}
-		if perturb {
+		if perturb && r.MapMode != 4 {
 			ms.pol = 1 + t.Draw(nPol-1)
 			ms.param = uint64(t.Draw(1 << 30))
 		}
@@ -119,6 +124,14 @@ func (r *Run) sitePolicy(site string, n int) (pol int, param uint64, call int) {
 	}
 	return ms.pol, ms.param, ms.calls
 }
+
+// Policies usable in ForceMap.
+const (
+	PolSorted   = polSorted
+	PolReversed = polReversed
+	PolRotated  = polRotated
+	PolShuffled = polShuffled
+)
 
 // SetMapMode configures the swarm mode of map perturbation for this run.
 // mode 3 perturbs only the k-th distinct site encountered.
